@@ -92,3 +92,77 @@ func errPropagates(c *Ctx, fn *ssa.Function, match func(name string, call *ssa.C
 	}
 	return len(siteSet), bad
 }
+
+// errFamilies: callees whose error result must not be dropped, by property.
+var errFamilies = map[string][]string{
+	"C06": {").GetChunk", ").HasChunk", ").StoreChunk", ").RemoveChunk", "desync.NewChunkWithID", "desync.NewChunkFromStorage", "Chunk).Data", "Converters).toStorage", "Converters).fromStorage",
+		"desync.ChopFile", "desync.Copy", "desync.ChunkStream", "desync.IndexFromFile", "desync.readChunkFromFile", "cmd.storeCaibxFile", "cmd.readCaibxFile"},
+	"C04": {").GetIndex", ").StoreIndex", ").GetIndexReader", "desync.IndexFromReader", "Index).WriteTo", "cmd.storeCaibxFile", "cmd.readCaibxFile"},
+	"C05": {"desync.Tar", "desync.UnTar", "desync.UnTarIndex", "desync.tar", "FormatEncoder).Encode", "FormatDecoder).Next", "ArchiveDecoder).Next", "FilesystemWriter).Create*", "LocalFS).Set*"},
+	"C01": {"desync.AssembleFile", "SeedSegment).WriteInto", "SeedSegment).Validate", "Plan).Validate", "SeedSequencer).RegenerateInvalidSeeds", "desync.writeChunk", "Seed).RegenerateIndex"},
+	"C17": {"desync.VerifyIndex", "fileSeedSegment).Validate"},
+}
+
+// dropped-error exceptions: (function key, callee suffix) -> reason
+var errDropExceptions = map[string]string{
+	"RemoteHTTPIndex.StoreIndex$1$1|Index).WriteTo": "pipe-feeding goroutine: a failed encode closes the pipe early and surfaces as a short upload",
+	"S3IndexStore.StoreIndex$1|Index).WriteTo":      "pipe-feeding goroutine: a failed encode surfaces as a short upload",
+	"SFTPIndexStore.StoreIndex$1|Index).WriteTo":    "pipe-feeding goroutine: a failed encode surfaces as a short upload",
+	"GCIndexStore.StoreIndex|Index).WriteTo":        "the writer's Close error reports the failed upload",
+	"cmd.runInfo|).HasChunk":                        "reporting command: an unreachable cache counts as 'not cached'; no property anchors it",
+}
+
+// errorsNotDropped: every call of the property's callee families has its error result looked at
+// (tested, returned, stored or passed on) - a purely structural "is the value used at all" rule.
+func (c *Ctx) errorsNotDropped(prop string) {
+	fams := errFamilies[prop]
+	n := 0
+	for _, fn := range c.Funcs {
+		instrs(fn, func(_ *ssa.BasicBlock, _ int, ins ssa.Instruction) {
+			ci, ok := ins.(ssa.CallInstruction)
+			if !ok {
+				return
+			}
+			name := callee(ci)
+			fam := ""
+			for _, f := range fams {
+				if strings.HasSuffix(name, f) || (strings.HasSuffix(f, "*") && strings.Contains(name, strings.TrimSuffix(f, "*"))) {
+					fam = f
+				}
+			}
+			if fam == "" {
+				return
+			}
+			ei := errResultIndex(ci)
+			if ei < 0 {
+				return
+			}
+			n++
+			used := false
+			switch x := ins.(type) {
+			case *ssa.Call:
+				if x.Call.Signature().Results().Len() == 1 {
+					used = x.Referrers() != nil && len(*x.Referrers()) > 0
+				} else {
+					for _, r := range *x.Referrers() {
+						if ex, ok := r.(*ssa.Extract); ok && ex.Index == ei && ex.Referrers() != nil && len(*ex.Referrers()) > 0 {
+							used = true
+						}
+					}
+				}
+			case *ssa.Go, *ssa.Defer:
+				used = false
+			}
+			key := fmt.Sprintf("%s:%s", fnKey(fn), name)
+			if used {
+				return
+			}
+			if why, ok := errDropExceptions[fnKey(fn)+"|"+fam]; ok {
+				c.info(key, ins.Pos(), "exception: %s", why)
+				return
+			}
+			c.bad(key, ins.Pos(), "the error returned by %s is dropped (never tested, returned or stored): a failure of this operation is invisible", name)
+		})
+	}
+	c.ok("error-results:"+prop, 0, "%d call sites of the error-returning operations this property depends on; none drops its error (besides the frozen exceptions)", n)
+}
